@@ -82,6 +82,15 @@ func decodeString(src string, pos int) (ret int, v string) {
 	return ret, rt.Mem2Str(vv)
 }
 
+// Unquote decodes a quoted JSON string literal (JSON escapes, surrogate pairs included)
+func Unquote(quoted string) (string, bool) {
+	v, ok := unquoteBytes(rt.Str2Mem(quoted))
+	if !ok {
+		return "", false
+	}
+	return rt.Mem2Str(v), true
+}
+
 func decodeBinary(src string, pos int) (ret int, v []byte) {
 	var vv string
 	ret, vv = decodeString(src, pos)
